@@ -2,10 +2,11 @@ import SmtpV.Proofs.ServerInv
 import SmtpV.Spec.Monitors
 import SmtpV.Props.C03
 import SmtpV.Proofs.OrderFacts
+import SmtpV.Proofs.ClientTLSr
 /-!
 # C10 — STARTTLS discards all plaintext state and input (server side)
 
-Client side (DialStartTLS / SendMail against misbehaving peers) is not yet covered by a theorem.
+Client side: `C10_client_*` below, on the client model (`Model/Client.lean`, tied to client.go by the cstls probes).
 -/
 namespace SmtpV.Props.C10
 open SmtpV SmtpV.Spec SmtpV.Server SmtpV.Reply
@@ -145,5 +146,38 @@ theorem C10_new_session_sees_tls (s : S) (h : Props.C03.Fresh s) (pre mid post :
   obtain ⟨m, hm⟩ := run_ok_of_check (Props.C03.order_accepts_every_connection s h)
   rw [htr] at hm
   exact accepted_ns_sees_tls hm
+
+/-! ### the client half (NewClientStartTLS / DialStartTLS / SendMail), on the client model -/
+open SmtpV.Client in
+/-- **C10_client_plain_frozen.**  Once STARTTLS has been answered 220 (`initStartTLS` succeeded), whatever the
+    application then calls — any sequence of `Hello`, `Mail`, `Rcpt`, `Data`, writes, `Close`, `Auth`, `Reset`, `Quit`, … — and
+    whatever the peer answers or fails to answer, not one more octet is written on the raw socket: either the handshake
+    succeeded and everything goes inside TLS, or it failed and the connection is closed. -/
+theorem C10_client_plain_frozen (c : C) (h : (c.initStartTLS).2 = none) (calls : List Call) :
+    (calls.foldl (fun c k => (c.call k).1) (c.initStartTLS).1).plainLog = (c.initStartTLS).1.plainLog :=
+  (calls_keeps calls _ (initStartTLS_ok c h)).1
+
+open SmtpV.Client in
+/-- **C10_client_plaintext_only_upgrade.**  Package-level `SendMail`: everything it ever writes on the raw socket is a
+    sequence of whole lines out of {EHLO/LHLO name, HELO name, STARTTLS} — no AUTH, MAIL, RCPT, DATA or message octet
+    leaves in plaintext, for every peer behaviour (STARTTLS not offered, refused, 220 and no TLS, injected replies). -/
+theorem C10_client_plaintext_only_upgrade (c : C) (hi : Idle c) (hp : c.tlsPending = false) (auth : Bool) (frm : Bytes)
+    (to : List Bytes) (body : Bytes) :
+    ∃ ls : List Bytes, (sendMail c auth frm to body).1.plainLog = c.plainLog ++ ls.flatten ∧ ∀ l ∈ ls, l ∈ upgradeLines c := by
+  rcases sendMail_plain c auth frm to body with h | h
+  · exact ⟨[], by simp [h], by simp⟩
+  · rw [h]; exact initStartTLS_lines c hi hp
+
+open SmtpV.Client in
+/-- **C10_client_stops_when_upgrade_fails.**  When the upgrade does not happen, `SendMail` returns that error and the
+    state `initStartTLS` left: nothing is sent after the refusal. -/
+theorem C10_client_stops_when_upgrade_fails (c : C) (auth : Bool) (frm : Bytes) (to : List Bytes) (body : Bytes) (e : CErr)
+    (h : (c.initStartTLS).2 = some e) :
+    sendMail c auth frm to body = (c, "err") ∨ sendMail c auth frm to body = ((c.initStartTLS).1, showErr (some e)) :=
+  sendMail_stops c auth frm to body e h
+
+open SmtpV.Client in
+/-- the hypotheses are those of a new client -/
+example : Idle ({} : C) ∧ ({} : C).tlsPending = false := ⟨⟨rfl, rfl⟩, rfl⟩
 
 end SmtpV.Props.C10
